@@ -556,6 +556,27 @@ def _replay_flush_cache(model, contract):
 CONTRACTS["model:Model.flush_junctions#cache_invariant"]["replay_hook"] = _replay_flush_cache
 
 
+
+# ---- TimedCompartment as a number: its size is the sum of its elapsed-time rows, and assigning a size at the initial time spreads it
+# uniformly over the rows ("initial occupants are spread uniformly over the duration", C05; C07 initial sizes)
+CONTRACTS["model:TimedCompartment.__getitem__"] = dict(
+    schema=schema, params={"ti": "int"},
+    requires=["0 <= ti", "ti < self._vals.shape[1]", "self._vals.shape[0] >= 1"],
+    modifies=[],
+    ensures=[("C01+C05.size_is_the_sum_over_elapsed_time_rows", "result == sum(self._vals[r, ti] for r in range(self._vals.shape[0]))")],
+    frame_props=["C05"], defined_props=["C05"])
+CONTRACTS["model:TimedCompartment.__setitem__"] = dict(
+    schema=schema, params={"ti": "int", "value": "real"},
+    requires=["self._vals.shape[0] >= 1", "self._vals.shape[1] >= 1"],
+    modifies=["self._vals[:, 0]"],
+    raises={"ModelError": "ti != 0"},
+    ensures=[
+        ("C05+C07.initial_occupants_are_spread_uniformly_over_the_rows", "all(self._vals[r, 0] * self._vals.shape[0] == value for r in range(self._vals.shape[0]))"),
+        ("C05+C07.assigned_size_is_the_total", "sum(self._vals[r, 0] for r in range(self._vals.shape[0])) == value"),
+    ],
+    frame_props=["C05"], defined_props=["C05"], raises_props=["C05"])
+
+
 # ------------------------------------------------------------------------------------------------ limits (C06)
 _lim_ok = "implies(self.limits is not None, len(self.limits) == 2 and self.limits[0] <= self.limits[1])"
 CONTRACTS["model:Parameter.constrain#index"] = dict(
